@@ -10,34 +10,34 @@ CHECKS = {
     "C01": dict(
         level="model_checking", engine="E-explicit-state",
         technique="explicit-state BFS over all chunk lengths on the real computer (state merging "
-                  "by canonical form, NaN-poisoned dead regions) + unmerged all-compositions tree",
+                  "by canonical form, NaN-poisoned dead regions) + unmerged all-compositions tree; schedule enumeration of two live instances",
         text="Every reachable state of a real STFT/SI computer under the alphabet {compute_chunk of "
              "every length 0..Nmax-n, finalize} is explored to closure for each configuration of a "
              "lattice (all 1<=S<=L<=8, 3 frame styles, 2 windows, padded/unpadded; SI banks x shifts "
              "1..6 x styles); every transition runs the real method and is compared with compute_full "
-             "of a fresh instance, so all 2^(Nmax-1) chunkings of every prefix are covered, not sampled.",
+             "of a fresh instance, so all 2^(Nmax-1) chunkings of every prefix are covered, not sampled. Added after seeded changes: every composition on ONE live computer with all outputs held until after finalize, and every interleaving of the calls of TWO live computers (schedule enumeration; snapshots would hide shared buffers).",
         note="Sample values are one generic signal per configuration; compute_full is the reference "
              "(its own definition is C02/C03); merging validated by poisoning and an unmerged cross-check.",
         design="3/C01"),
     "C02": dict(
         level="exploration", engine="L-lattice",
         technique="bounded-exhaustive lattice enumeration of configurations x lengths on the real "
-                  "compute_full against a definitional full-DFT reference model",
+                  "compute_full against a definitional full-DFT reference model; construction histories on a shared bank",
         text="The full Cartesian lattice (7 tiny banks incl. complex ones that wrap below 0 Hz and past "
              "Nyquist x L 2..12 x S x padded/unpadded (every DFT size 2..12,16, all residues mod 4) x 3 "
              "frame styles x 2 windows x log/power/energy x 6 lengths around the frame boundaries) is "
              "enumerated completely and each point compared with an independent reference (full complex "
-             "DFT, explicit reflection map, responses rebuilt by the docstring recipe).",
+             "DFT, explicit reflection map, responses rebuilt by the docstring recipe). Also construction histories: every ordered pair/triple of computers built on ONE bank instance, evaluated after all were built; data alphabet incl. loud-then-quiet, outlier, tiny, strided and negative-stride views; realistic 25/10 ms geometry.",
         note="numpy.fft trusted; get_truncated_response taken as given (C06); one generic signal per "
              "length plus zeros.",
         design="3/C02"),
     "C03": dict(
         level="exploration", engine="L-lattice",
         technique="bounded-exhaustive lattice enumeration on the real compute_full against an "
-                  "np.convolve reference model",
+                  "np.convolve reference model; construction/call histories in one process",
         text="Every in-domain point of banks x shifts 1..6 x styles x padded/unpadded x windows x "
              "log/power/energy x float dtypes x lengths {0..3S, M-1, M, M+S, D-1, D, D+1, 2D+3} is "
-             "computed by the real overlap-save implementation and by direct convolution.",
+             "computed by the real overlap-save implementation and by direct convolution. Also construction/call histories: ordered pairs of configurations built in one process, 7 compute_full calls on the live instances (short utterances first), each vs the definition.",
         note="np.convolve trusted; impulse responses sampled in the documented DFT width; the reference "
              "asserts its DFT size equals the computer's (harness error otherwise).",
         design="3/C03"),
@@ -56,72 +56,72 @@ CHECKS = {
     "C05": dict(
         level="exploration", engine="L-lattice",
         technique="bounded-exhaustive lattice bank class x scale x num_filts x rate x range x flags, every "
-                  "filter: closed-form layout reference and DTFT-of-impulse-response measurements",
+                  "filter: closed-form layout reference and DTFT-of-impulse-response measurements; call histories on one bank object",
         text="Every constructible bank of the lattice: centres/edges equal the independently re-implemented "
              "scale layout, centres strictly increasing and inside supports_hz; for filters whose support "
              "spans < rate/2: peak at the centre with gain 1 (two routes: DTFT of the impulse response and "
              "the frequency response), 3 dB crossings (erb=False) or ERB = edge spacing (erb=True, Parseval), "
              "unit L2 norm with scale_l2_norm; triangle / mel-triangle equality at every bin; invalid ranges "
-             "rejected with ValueError.",
+             "rejected with ValueError. Also odd/fractional sampling rates and a history sub-check: every 2-call (3 thorough) sequence on one bank object, results held, compared with fresh objects, aliasing/scribble tests.",
         note="(Nyquist, Nyquist+1] is left open by the property and untested; unconstructible valid "
              "configurations are counted, not violations; odd sampling rates not enumerated.",
         design="3/C05"),
     "C06": dict(
         level="exploration", engine="L-lattice",
         technique="bounded-exhaustive lattice banks x every filter x DFT widths (2..600 sweep in thorough), "
-                  "docstring rebuild recipe vs get_frequency_response",
+                  "docstring rebuild recipe vs get_frequency_response; call histories on one bank object",
         text="For every bank, filter and width: rebuilt-from-truncated vs full response within 2 eps "
              "(identical up to 1e-12 for triangular/Fbank), start bin in [0,width), real banks inside the "
              "half spectrum, half=True equals the leading bins, Hermitian symmetry, analytic filters vanish "
-             "on negative frequencies, all finite.",
+             "on negative frequencies, all finite. Also banks with high_hz in (Nyquist, Nyquist+1] at large widths, one bank object per case, and call histories (incl. the same call twice on banks with narrow filters).",
         note="Widths per bank are bounded by the cost of the library's per-period Python loops (stated in "
              "the module).",
         design="3/C06"),
     "C07": dict(
         level="exploration", engine="L-lattice",
         technique="bounded-exhaustive lattice banks x every filter x buffer widths {W0, W0+1, 2W0, 4W0-1}: "
-                  "inverse DFT vs impulse response and support bounds in both domains",
+                  "inverse DFT vs impulse response and support bounds in both domains; call histories on one bank object",
         text="In every buffer long enough for the filter: ifft(frequency response) equals the impulse "
              "response within 2 eps, real iff is_real, magnitudes outside `supports` < 2 eps and outside "
-             "`supports_hz` < 2.5 eps, zero-phase supports straddle 0, causal gammatone supports start at 0.",
+             "`supports_hz` < 2.5 eps, zero-phase supports straddle 0, causal gammatone supports start at 0. Also call histories on one bank object (results held, fresh-object differential oracle).",
         note="Domain as stated by the property (zero-phase banks; gammatone order >= 3 without L2 scaling); "
              "filters with W0 above a cap are skipped and counted.",
         design="3/C07"),
     "C08": dict(
         level="exploration", engine="L-lattice",
         technique="exhaustive enumeration of the alias registry, of every class tree with <=5 (thorough 7) "
-                  "classes x alias-sharing pairs x query roots, and of nested JSON configuration trees",
+                  "classes x alias-sharing pairs x query roots, and of nested JSON configuration trees; registration/lookup histories",
         text="The whole registry (__subclasses__ of the six families, every alias, per-family resolution, "
              "unknown aliases) is walked; alias shadowing is decided on EVERY creation-ordered class tree up "
              "to the bound under a private root with the oracle 'created last wins'; the "
              "alias_factory_subclass_from_arg contract over mapping types; JSON-round-tripped nested "
              "configurations (computer x bank alias x scale alias x window alias) vs explicit construction "
-             "(array_equal features).",
+             "(array_equal features). Also lookup/register/lookup histories (queries repeated after every class creation), classes that inherit `aliases`, falsy aliases, and build-modify-build histories for string aliases.",
         note="Hierarchies are trees (no multiple-inheritance DAGs); creating classes is global state, so "
              "each hierarchy lives under a fresh private root.",
         design="3/C08"),
     "C09": dict(
         level="exploration", engine="L-lattice",
         technique="bounded-exhaustive lattice of tool x computer x pre x post x config syntax x container "
-                  "x utterance set; both console tools run in-process against a NumPy reference pipeline",
+                  "x utterance set; both console tools run in-process against a NumPy reference pipeline; separate-process and in-process run histories",
         text="Every point of the Cartesian lattice runs the real tool and compares every stored matrix "
              "(ids present, nothing else, allclose rtol 1e-5 in float32) with read_signal -> channel pick -> "
              "pre-processors in order -> compute_full (or raw column) -> post-processors in order; config "
-             "syntaxes must agree and a fixed --seed must be reproducible (dither).",
+             "syntaxes must agree and a fixed --seed must be reproducible (dither). Also --seed over {0,1,7,2^31-1}, separate interpreter processes with distinct hash salts, a framing lattice (tool x style x L parity x S parity x every length), option boundary values and id sets with string relations, runs with a pre-existing manifest (all 16 subsets), and pairs of tool runs in one interpreter.",
         note="Order of the torch tool's two Preemphasize filters is unobservable (they commute); signal "
              "lengths L//2+1 <= N < L are outside the torch tool's claimed domain (C14).",
         design="3/C09"),
     "C10": dict(
         level="fault_enumeration", engine="F-fault",
         technique="crash-point enumeration on the real process: strace syscall fault injection kills the "
-                  "CLI at every state-changing syscall on the output paths (SIGKILL and SIGINT), then resume",
+                  "CLI at every state-changing syscall on the output paths (SIGKILL and SIGINT), then resume; exhaustive manifest-subset enumeration",
         text="The real console script is killed at EVERY state-changing syscall (openat/mkdir/write/writev/"
              "close) touching the output directory, a feature file or the manifest, with SIGKILL and SIGINT; "
              "after each kill invariants I1 (manifest lists only complete loadable files) and I2 (lists every "
              "completed utterance but the one in flight) are checked, the command is re-run and I3 (directory "
              "identical to an uninterrupted run incl. dither under --seed) and I4 (listed files not rewritten) "
              "are checked; thorough adds second-order kills. Worker counts 0..3 compared; the dataset "
-             "mechanism is driven for every assignment/order of <=4 items over <=3 simulated workers.",
+             "mechanism is driven for every assignment/order of <=4 items over <=3 simulated workers. Also ids with substring relations, non-default --file-prefix/--file-suffix, and `manifest_subsets`: id set x all 24 map orders x all 16 manifest subsets x seeds.",
         note="Process kills at syscall granularity (page cache survives); OS scheduling of DataLoader "
              "workers is sampled, the repository-side seeding mechanism is enumerated (DESIGN 4).",
         design="3/C10"),
@@ -129,23 +129,23 @@ CHECKS = {
         level="exploration", engine="L-lattice",
         technique="bounded-exhaustive lattice container x shape x dtype x access path x cast x key, plus "
                   "exhaustive garbage enumeration (all 1-byte strings, 2-byte strings over 16 symbols, every "
-                  "prefix and byte substitution of small valid files) for wds_read_signal in child processes",
+                  "prefix and byte substitution of small valid files) for wds_read_signal in child processes; call histories in a fresh process",
         text="Every container is written with its own writer and read back from a path and from a stream "
              "(array_equal, dtype, shape); the error lattice (no suffix, stream without force_as, unknown "
              "force_as); wds_read_signal must return None or an ndarray and never raise, hang or crash on "
-             "every enumerated byte string under every key suffix.",
+             "every enumerated byte string under every key suffix. Also multi-read SPHERE files through every access path, and call histories in a forked never-called process: every pair (triple) of calls over successful reads, documented errors and files named after force_as keywords; held results unchanged, no shared memory, module configuration unchanged.",
         note="wave, soundfile, numpy, torch, h5py writers trusted; short-read streams (pipes) not modelled.",
         design="3/C11"),
     "C12": dict(
         level="exploration", engine="L-lattice",
         technique="bounded-exhaustive lattice coding x channels 1..7 x sample counts around multiples of the "
                   "16 KiB read x header layout x dtype with an independent SPHERE writer; all 256 G.711 "
-                  "codes; every truncation length; every header prefix",
+                  "codes; every truncation length; every header prefix; call histories with held results",
         text="Files produced by an independent writer decode to exactly the stored samples and shape for "
              "every lattice point (both sides of every read boundary, frame sizes that do not divide 16384); "
              "both G.711 tables equal an independent ITU-T expansion on all 256 codes; every byte length of a "
              "truncated data section yields a warning and exactly the whole samples present; header faults "
-             "raise IOError.",
+             "raise IOError. Also header sizes that are not multiples of 1024 (every size 1024..3100), counts around k*q for k<=4 (2nd-4th straddle), and call histories with held results.",
         note="The independent G.711 expansion and SPHERE writer are cross-checked against libsndfile in "
              "their selftests.",
         design="3/C12"),
@@ -172,7 +172,7 @@ CHECKS = {
              "(4 bank kinds x L 2..12 x S x pad x 3 styles x windows x energy/log/power x N in {0,1,L//2,L,"
              "L+1,2L+1,3L+S} x float32/float64), shapes incl. empty column count; wrappers (Preemphasize, "
              "PostProcessorWrapper, SI computer, Dither algebra and fixed-seed moments); scripted and traced "
-             "modules equal eager.",
+             "modules equal eager. Also non-contiguous input tensors, and for the wrappers: caller's tensor unchanged, second call equals the first.",
         note="Lengths L//2+1 <= N < L are outside the property's claim and the lattice; the torch "
              "constructor's documented refusal of empty filters (DFT size 2 Fbank) is skipped and counted.",
         design="3/C14"),
@@ -180,44 +180,44 @@ CHECKS = {
         level="exploration", engine="L-lattice",
         technique="bounded-exhaustive lattice of shapes <=3-D x dtype x axis x target_axis x concatenate x "
                   "num_deltas x context window x pad mode (Deltas) and num_vectors x axes x pad mode (Stack) "
-                  "against an explicit-loop reference",
+                  "against an explicit-loop reference; object call histories",
         text="Every lattice point is compared (exact shape and dtype, values to 1e-12, ints exact up to the "
              "documented truncation) with the Kaldi recursion written with explicit loops and explicit edge "
-             "extension; 2-D fast path vs N-D path; input unchanged unless in_place.",
+             "extension; 2-D fast path vs N-D path; input unchanged unless in_place. Also object histories: every sequence of calls on one Deltas/Stack object (merged BFS to depth 3-4 plus un-merged pairs/triples) with all results held, vs a fresh object and the reference.",
         note="Callable pad modes are not enumerated; an empty filtered axis only with num_deltas=0.",
         design="3/C15"),
     "C16": dict(
         level="model_checking", engine="E-explicit-state",
         technique="explicit-state BFS over all accumulate histories of a data set (every non-empty subset of "
                   "the remaining vectors, in every presentation) on the real Standardize, merged by the "
-                  "statistics matrix; plus a lattice for local standardisation",
+                  "statistics matrix; plus a lattice for local standardisation; multi-instance histories",
         text="All ordered set-partitions of an integer-valued data set (n<=5 quick, up to 8 thorough) into "
              "accumulate calls (vector / 2-D along either axis / 3-D) are explored; the reachable states are "
              "exactly the 2^n subsets (additivity holds bit-exactly) and in every state apply equals the "
              "independently computed (x-mean)/std; local standardisation, ValueError on dimension mismatch, "
-             "float64 result and in_place on a lattice.",
+             "float64 result and in_place on a lattice. Also call histories mixing apply and accumulate, a mismatch lattice (every mismatching length incl. broadcastable 1, statistics unchanged after a refusal), and two-instance histories through shared files (load/accumulate/save interleavings re-executed from scratch, no snapshots).",
         note="Integer-valued data so that accumulation order cannot change a bit; real-valued data on the "
              "lattice part with rtol 1e-10.",
         design="3/C16"),
     "C17": dict(
         level="model_checking", engine="E-explicit-state",
         technique="explicit-state BFS over save/accumulate histories to depth 3 (thorough 4) on shared paths; "
-                  "state = statistics + decoded directory contents; reload oracle after every save",
+                  "state = statistics + decoded directory contents; reload oracle after every save; live histories without snapshots",
         text="Histories over accumulate(D+ | D- | float32) and save(path in {a.npy,a.npz,a.bin,b.npz}, key, "
              "compress, overwrite) are explored on the real Standardize in a scratch directory; after every "
              "save the statistics are reloaded (array_equal apply), the npz archive must contain exactly what "
              "the docstring promises for the overwrite flag, saving onto any existing file must succeed, and "
-             "saving without statistics must raise ValueError.",
+             "saving without statistics must raise ValueError. Also a data alphabet with constant / near-degenerate coefficients over every target, live histories without snapshots, and re-saving narrower/wider statistics or over another writer's file.",
         note="Garbage content at a target path is not in the alphabet; compression is observed, not judged.",
         design="3/C17"),
     "C18": dict(
         level="exploration", engine="L-lattice",
         technique="bounded-exhaustive lattice (length x dtype x coefficient x in_place x memory layout x "
-                  "seed) against an explicit float64 recurrence and exact noise algebra",
+                  "seed) against an explicit float64 recurrence and exact noise algebra; object call histories",
         text="Preemphasize: every N 0..6 x 5 dtypes x coefficients x in_place x layouts equals the explicit "
              "loop computed in float64 and cast back, input untouched unless in_place. Dither: seeds 0..31 "
              "reproducible, apply(x)-x independent of x (to 8 ulp of max|x|), exactly linear in coeff on a "
-             "zero signal, coeff 0 identity; fixed-seed mean/std inside 6 standard errors.",
+             "zero signal, coeff 0 identity; fixed-seed mean/std inside 6 standard errors. Also signals around powers of two up to 2^17+1, all histories of depth 6 over {seed, apply} on one Dither object, every 3-operation sequence incl. apply-to-previous-result and coeff re-assignment with results held, and integer signals at the dtype rails.",
         note="The distributional claim is checked as a deterministic fixed-seed computation (DESIGN 4).",
         design="3/C18"),
     "C19": dict(
@@ -226,7 +226,7 @@ CHECKS = {
                   "neighbourhoods of the Bark break-points + parameter lattice) with adjacency monotonicity",
         text="Round trips both ways to 1e-9, strict increase between every pair of adjacent grid points, "
              "continuity at the Bark break-points, agreement with independently re-implemented published "
-             "mel/Bark formulas, 1000 Hz = 1000 mel +- 0.02, OctaveScaling(low_hz<=0) rejected.",
+             "mel/Bark formulas, 1000 Hz = 1000 mel +- 0.02, OctaveScaling(low_hz<=0) rejected. Also histories: two instances with different parameters in one process and re-assignment of documented public attributes on a used object.",
         note="'All real frequencies' is represented by the grid; at the +-64 ulp neighbourhoods only "
              "'no drop beyond 8 ulp' is demanded (adjacent floats may map to one value).",
         design="3/C19"),
@@ -238,7 +238,7 @@ CHECKS = {
              "sum = 1+O(1/width), gamma closed form and arg-max band. circshift_fourier: dft_size 1..12 and "
              "None x segment length x start_idx x shift -2D..2D x copy x dtype: ifft(pad(out)) == "
              "roll(ifft(pad(in)), shift). gauss_quant vs erfc bisection (lower tail + symmetry), monotone, "
-             "affine in mu/std; angular/hertz inverses.",
+             "affine in mu/std; angular/hertz inverses. Also window call histories: the caller overwrites every returned array in place before the next call on the same or another object.",
         note="numpy.fft and math.erfc trusted; tolerances as corrected in DESIGN 3/C20.",
         design="3/C20"),
 }
